@@ -184,7 +184,7 @@ func genC09(seed uint64, tier string) *plan.Plan {
 		// sets sent afterwards are checked against by any collector
 		at := 3 + r.IntN(len(pl.Ops)-2)
 		ops := append([]plan.Op(nil), pl.Ops[:at]...)
-		ops = append(ops, plan.Op{K: "adv", A: int64(601 * time.Second)})
+		ops = append(ops, plan.Op{K: "adv", A: int64(601 * time.Second), S: []string{"", "tick"}[r.IntN(2)]})
 		pl.Ops = append(ops, pl.Ops[at:]...)
 	}
 	pl.Ops = append(pl.Ops, valid())
